@@ -64,18 +64,16 @@ Proof.
   - destruct (ran c); [do 2 (apply in_or_app; right); apply in_or_app; left; in_list
                       | apply in_or_app; left; in_list].
   - apply in_or_app; right. unfold recv_evs.
-    destruct (wclosed c).
-    + apply in_or_app; right. apply in_or_app; left. in_list.
-    + apply in_or_app; left.
-      destruct (v_dg v).
-      * destruct (v_cl v).
-        -- apply in_or_app; right. apply in_map. apply comp_in.
-        -- apply in_or_app; left. in_list.
-        -- apply in_or_app; left. in_list.
-        -- apply in_or_app; left. in_list.
+    apply in_or_app; left.
+    destruct (v_dg v).
+    + destruct (v_cl v).
+      * apply in_or_app; right. apply in_map. apply comp_in.
       * apply in_or_app; left. in_list.
       * apply in_or_app; left. in_list.
       * apply in_or_app; left. in_list.
+    + apply in_or_app; left. in_list.
+    + apply in_or_app; left. in_list.
+    + apply in_or_app; left. in_list.
   - do 2 (apply in_or_app; right); apply in_or_app; left; in_list.
   - do 2 (apply in_or_app; right); apply in_or_app; left; in_list.
   - do 2 (apply in_or_app; right); apply in_or_app; left; in_list.
